@@ -194,3 +194,17 @@ Record exchange_laws
     exists cs', noise_read k hs = Some (p, cs') /\
                 forall r enc, cs_encrypt cs' r = Some enc -> cs_decrypt cs enc = Some r
 }.
+
+(* ---- many requests: RecvAndRespond starts one handler per datagram; each handler works on its own copy of
+   the datagram, so what is sent back is a function of that datagram alone, whatever else arrives meanwhile.
+   The responder serving a sequence of datagrams (in their arrival order) is therefore `map`: ---- *)
+Section Serve.
+  Variable b32dec : bytes -> option bytes.
+  Variable cipher : Type.
+  Variable noise_read : bytes -> bytes -> option (bytes * cipher).
+  Variable cs_encrypt : cipher -> bytes -> option bytes.
+  (* (datagram, what the handler of that datagram sends back to its sender) *)
+  Definition serve (priv : bytes) (dom : name) (process : bytes -> option bytes) (arrived : list bytes)
+    : list (bytes * option bytes) :=
+    map (fun q => (q, snd (responder_handle b32dec cipher noise_read cs_encrypt priv dom process q))) arrived.
+End Serve.
